@@ -618,12 +618,22 @@ func (g *gen) fields(n, depth int, objectOnly bool) []*Field {
 		}
 		// flattened inline objects: keep JSON names unique in the parent
 		if f.Type.Flatten && f.Type.InlineObject != nil {
-			for _, inner := range f.Type.InlineObject.Fields {
-				for taken[strings.ToLower(snake(inner.Name))] {
-					inner.Name += "X"
+			// members of a flattened object - at every level of flatten-in-flatten -
+			// share the parent's JSON namespace
+			var claim func(o *Object)
+			claim = func(o *Object) {
+				for _, inner := range o.Fields {
+					if inner.Type.Flatten && inner.Type.InlineObject != nil {
+						claim(inner.Type.InlineObject)
+						continue
+					}
+					for taken[strings.ToLower(snake(inner.Name))] {
+						inner.Name += "X"
+					}
+					taken[strings.ToLower(snake(inner.Name))] = true
 				}
-				taken[strings.ToLower(snake(inner.Name))] = true
 			}
+			claim(f.Type.InlineObject)
 			f.Optional = false
 		}
 		// an inline type may carry an explicit name
